@@ -377,7 +377,7 @@ class Run:
 
 
 def run_fifo(prog: dict, crash_at: int | None = None, sweeps_after_crash: int = 1, tag: str = "fifo",
-             max_steps: int = 2000, crash_at_exec: int | None = None, late_expire: bool = False) -> tuple[dict, dict, int]:
+             max_steps: int = 400, crash_at_exec: int | None = None, late_expire: bool = False) -> tuple[dict, dict, int]:
     """Uninterrupted (or single-crash) FIFO run.  Returns (trace, final, commits).
     late_expire: after the restart the recovery sweep and its messages run BEFORE the lock of the
     interrupted message lapses (a restart is usually faster than the 60 s lock)."""
